@@ -291,5 +291,35 @@ LogicLaws ==
         /\ Disjunction(s).value = (\E i \in DOMAIN s : Val(s[i]))
         /\ ConjOK(s) /\ DisjOK(s)
 
-Laws == ArithLaws /\ PromoteLaws /\ LogicLaws
+(* Round 3: further theorems *)
+Range(s) == {s[i] : i \in DOMAIN s}
+Perms3(pk) == {<<pk[1], pk[2], pk[3]>>, <<pk[1], pk[3], pk[2]>>, <<pk[2], pk[1], pk[3]>>,
+               <<pk[2], pk[3], pk[1]>>, <<pk[3], pk[1], pk[2]>>, <<pk[3], pk[2], pk[1]>>}
+MoreLaws ==
+    /\ \A pk \in Packs :
+          /\ Len(pk) = 3 /\ HasComplex(pk) => \A q \in Perms3(pk) : PromoteAllowed(q) = PromoteAllowed(pk)   \* all six orders
+          /\ Len(pk) = 2 /\ pk[1] # T("bool") /\ pk[2] # T("bool") =>
+                PromoteAllowed(<<pk[1], pk[2], pk[2]>>) = PromoteAllowed(pk)                               \* a repeated type adds nothing
+          /\ \A r \in PromoteAllowed(pk) : IsComplex(r) <=> HasComplex(pk)
+    /\ \A pk \in CvPacks : PromoteAllowed([i \in DOMAIN pk |-> T(Bare(pk[i]))]) \subseteq PromoteCvAllowed(pk) \* cv never reaches a sum
+    /\ \A t \in PackTypes : /\ BigPromote(BigPromote(t)) = BigPromote(t)
+                            /\ RealPromote(RealPromote(t)) = RealPromote(t)
+                            /\ BoolPromote(BoolPromote(t)) = BoolPromote(t)
+                            /\ IsComplex(BigPromote(t)) <=> IsComplex(t)
+    /\ \A a \in Integral : Fits(a, BigName(a))
+    /\ \A s \in SeqsUpTo(Bools, MaxArgs) :
+          /\ s # <<>> => /\ Val(s[Conjunction(s).sel]) = Conjunction(s).value                              \* the selected base decides
+                         /\ Val(s[Disjunction(s).sel]) = Disjunction(s).value
+                         /\ \A i \in 1..(Conjunction(s).sel - 1) : Val(s[i])
+                         /\ \A i \in 1..(Disjunction(s).sel - 1) : ~Val(s[i])
+          /\ Disallow(s) = ~Requires(s) /\ DisallowOne(s) = ~Either(s)
+          /\ Requires(s) => (Either(s) \/ s = <<>>)
+    /\ \A T_ \in CvRefTypes("double", {"none"}), U \in [b : {"int"}, c : BOOLEAN, v : BOOLEAN, p : {"none"}, ref : {"none"}] :
+          /\ \A r \in Range(ApplyCvAllowed(T_, U)) : r.b = U.b /\ (r.c <=> (U.c \/ T_.c)) /\ (r.v <=> (U.v \/ T_.v))
+          /\ (~T_.c /\ ~T_.v /\ T_.ref = "none") => ApplyCvAllowed(T_, U) = <<U>>
+    /\ \A t \in CvRefTypes("int", {"none", "ptr", "cptr"}) :
+          \A r \in Range(ConstifyAllowed(t)) : /\ r.b = t.b /\ r.ref = t.ref /\ r.v = t.v
+                                               /\ r \in Range(ConstifyAllowed(r))                           \* constify is idempotent
+
+Laws == ArithLaws /\ PromoteLaws /\ LogicLaws /\ MoreLaws
 =============================================================================
